@@ -9,6 +9,8 @@
                several goroutines; a group = the calls made at one virtual instant, each goroutine one or
                more calls, listed in the order they completed (a goroutine's own calls in program order)
    prov.long   as prov.hist, > 65536 rotations; oracle = the one-pass C12_long_ok
+   prov.lsn    args: [ [0 T] | [1 T lsn c] ... ]   outs: [ [tlo thi answered [ids]] ... ]   the real NTS-KE server and
+               the real IP / SCION listeners with one provider, virtual time = real time + ageing (Provider.VerifAge)
    prov.lock   args: (none)   outs: [ [name locked] ... ]  source check: every method of *Provider that the servers
                call takes p.mu first and releases it by defer *)
 From Coq Require Import ZArith List String.
@@ -79,6 +81,43 @@ Fixpoint groups_of_values (a o : list value) : option (list (Z * list op * list 
       | Some g, Some gs => Some (g :: gs) | _, _ => None end
   | _, _ => None end.
 
+(* prov.lsn: steps [0 T] (key exchange) | [1 T lsn c] (request over listener lsn with the c-th cookie
+   ever handed out); observed per step [tlo thi answered [key ids of the cookies handed out]].
+   The clock reading of a step is thi. *)
+Fixpoint lsn_build (handed : list Z) (steps outs : list value) : option (list lstep * list lobs) :=
+  match steps, outs with
+  | [], [] => Some ([], [])
+  | st :: steps', VL [VZ tlo; VZ thi; VZ ans; VL idsv] :: outs' =>
+      match getZs idsv with
+      | None => None
+      | Some ids =>
+          let mk := match st with
+                    | VL [VZ 0; VZ _] => Some (LKe thi, LObs thi None (negb (ans =? 0)) ids)
+                    | VL [VZ 1; VZ _; VZ _; VZ c] =>
+                        let kid := nth (Z.to_nat c) handed (-1) in
+                        Some (LReq thi kid, LObs thi (Some kid) (negb (ans =? 0)) ids)
+                    | _ => None end in
+          match mk, lsn_build (handed ++ ids) steps' outs' with
+          | Some (a, b), Some (la, lb) => Some (a :: la, b :: lb)
+          | _, _ => None end
+      end
+  | _, _ => None end.
+
+Definition lobs_agree (e o : lobs) : bool :=
+  match e, o with
+  | LObs _ _ ea eids, LObs _ _ oa oids =>
+      Bool.eqb ea oa &&
+      match eids with
+      | [id] => negb (Nat.eqb (length oids) 0) && forallb (Z.eqb id) oids
+      | _ => Nat.eqb (length oids) 0
+      end
+  end.
+Fixpoint lobs_all_agree (e o : list lobs) : bool :=
+  match e, o with
+  | [], [] => true
+  | x :: e', y :: o' => lobs_agree x y && lobs_all_agree e' o'
+  | _, _ => false end.
+
 Definition lock_entry_ok (v : value) : bool :=
   match v with VL [VB _; VZ 1] => true | _ => false end.
 
@@ -135,6 +174,17 @@ Definition glue_C12 (k : string) (a o : list value) : option verdict :=
             match new_provider t0 with
             | Some s => Some (relational (groups_ok s t0 gs) (C12_ok bs))
             | None => None end
+        | None => Some (relational false true)
+        end
+    | _, _ => None end
+  else if is k "prov.lsn" then
+    match a, o with
+    | [VL steps], [VL outs] =>
+        match lsn_build [] steps outs with
+        | Some (ls, lo) =>
+            let agree := lmonob 0 ls &&
+                         match lsn_history 0 ls with Some (_, e) => lobs_all_agree e lo | None => false end in
+            Some (relational agree (C12_lsn_ok 0 lo))
         | None => Some (relational false true)
         end
     | _, _ => None end
